@@ -677,6 +677,9 @@ def build(x):
 wmsg = build(case["wmsg"])
 cls = getattr(M, case["cls"])
 out = {"wmsg": repr(wmsg)}
+if not (type(wmsg) is list and len(wmsg) > 0 and type(wmsg[0]) is int and wmsg[0] == cls.MESSAGE_TYPE):
+    # not an input of this unit (Serializer.unserialize dispatches on the type code before parse() is called)
+    print(json.dumps(dict(out, outcome="skipped: the candidate does not satisfy the unit's precondition"))); raise SystemExit
 try:
     result = cls.parse(wmsg)
 except (ProtocolError, InvalidUriError) as e:
